@@ -239,7 +239,15 @@ func (s *Cron) Add(j *Job) error {
 		return err
 	}
 
-	return s.DB.Update(f)
+	return s.DB.Update(func(tx *bolt.Tx) error {
+		// Another Add could have created the job since the
+		// check above, which ran in its own transaction.
+		jobs := "jobs" + s.Partition(j.Account)
+		if 0 < len(tx.Bucket([]byte(jobs)).Get([]byte(j.aid))) {
+			return Exists
+		}
+		return f(tx)
+	})
 }
 
 func (s *Cron) update(j *Job) (func(*bolt.Tx) error, error) {
